@@ -1,4 +1,5 @@
 """C09 - every routine documented as a derivative returns the derivative of the value routine it is named after."""
+import contextlib
 import math
 
 import numpy as np
@@ -46,6 +47,17 @@ RULE = ("Hypothesis draws the family, the order(s) (0, 1, 2, 3 forced, otherwise
         "(Surface.plane too: zero sag and slopes).  The Clenshaw routines are also given a caller-supplied alphas= workspace (fresh, or used before by a "
         "call of the same shape); orders / derivative orders as np.int64, shape parameters as np.float64; one array object for two coordinates "
         "(r is t, u is t, x is y); one case in four makes a request that fails (evaluation points None, caught) immediately before the checked call.  "
+        "The single-precision request that precedes the checked one (pre32) is made with single-precision data under the double-precision configuration, or as the "
+        "start of a session under prysm.conf.config.precision = 32 - single-precision data, or the very argument objects of the checked call; one time in four after "
+        "vlib.util.cold_start() has cleared every functools.lru_cache of the polynomial modules -: the configuration is back at 64 for the checked request, whose "
+        "answer is then also compared with the same oracle at 1/100 (single-order derivatives: 1/10) of the ordinary tolerance (bucket ...:after-single-precision-session; "
+        "unchanged code <= 2e-4 of that tighter tolerance); nothing is asserted about the accuracy of the request made under the single-precision configuration.  "
+        "Every Clenshaw derivative sum and every sag-and-slope evaluator (jacobi_sum_clenshaw_der, clenshaw_qbfs_der, clenshaw_q2d_der, compute_z_zprime_Qbfs / _Qcon / "
+        "_Q2d, Q2d_and_der) is evaluated about one time in twelve on more than 2**16 points - 3 x 22003, 257 x 263, 22003 x 3, 2 x 1 x 32771, 65537 - in every memory "
+        "layout (Fortran-ordered, transposed view, strided, C; at most 6 / 4 / 3 orders per coefficient vector there), buckets ...:size>2^16:C-ordered / not-C-ordered.  "
+        "After the checked call the caller edits its coordinate arrays in place (x -> mid + (x - mid)/2, r *= 1/2, t += clocking; u^2 kept in step with u in place) and "
+        "asks again with the same objects (single-order and sequence derivatives, Zernike, compute_z_zprime_*): the answer must be the derivative at the new values "
+        "(...:coordinates-edited-in-place).  "
         "Failure buckets name the routine "
         "and the failing input class (n=0 / n>=1, len1, j>=2, j>=len, k!=0, x.ndim!=1 for the Chebyshev sequence forms, "
         "one-family-empty for 2D-Q, :argument-modified, :result-overwritten, :aliased-state).  Non-trivial = order in {0,1} or "
@@ -71,8 +83,15 @@ HERMITE_MAX = 150                                      # He_n / H_n on [-4, 4] o
 # One sub-dict `v` per case (absent in replays recorded before it existed -> plain float64 / C order / lists / single call).
 INT_TYPES = ['int64', 'int32', 'int16', 'int8']
 DEFAULT_V = {'xkind': 'f64', 'itype': 'int64', 'layout': 'C', 'layout2': 'C', 'pre32': False, 'again': False, 'cs_as': 'list', 'ns_as': 'list',
-             'n_as': 'int', 'p_as': 'python', 'buf': 'none', 'prefail': False}
+             'n_as': 'int', 'p_as': 'python', 'buf': 'none', 'prefail': False, 'session': 'data', 'edit': 'none'}
 CONTAINERS = ['list', 'list', 'tuple', 'array']
+# how the single-precision request that precedes the checked one (pre32) is made: single-precision data under the double-precision
+# configuration ('data'), or as the start of a session under prysm.conf.config.precision = 32 - with single-precision data ('conf32'), with the
+# very argument objects of the checked call ('conf32-same-args'), or that on cold memo tables ('cold-conf32': every functools.lru_cache of the
+# polynomial modules cleared through the public cache_clear first)
+SESSIONS = ['data', 'data', 'data', 'conf32', 'conf32-same-args', 'cold-conf32', 'cold-conf32']
+# what the caller does to its coordinate arrays, in place, between the checked call and one more call with the same objects
+EDITS = ['none', 'none', 'none', 'shrink', 'clock']
 
 
 def variants(kinds=('f64', 'f32', 'int', 'complex')):
@@ -92,7 +111,8 @@ def variants(kinds=('f64', 'f32', 'int', 'complex')):
         # a request that fails (evaluation points None) and is caught by the caller immediately before the checked call
         'prefail': st.sampled_from([False, False, False, True]),
         # value pattern of the coefficients: independent values, all equal, or alternating +c / -c (sums that cancel exactly at x = 1 / -1)
-        'cpat': st.sampled_from(['random', 'random', 'random', 'random', 'equal', 'alternating'])})
+        'cpat': st.sampled_from(['random', 'random', 'random', 'random', 'equal', 'alternating']),
+        'session': st.sampled_from(SESSIONS), 'edit': st.sampled_from(EDITS)})
 
 
 _CUR = {'cscale': 1.0, 'xzero': False, 'cpat': 'random'}     # presentation options of the case being checked (set by var_of, read by the generators below)
@@ -119,7 +139,7 @@ def var_labels(ctx, v, shape):
         ctx.label('after-float32-call')
     if v['again']:
         ctx.label('re-use-check')
-    return v['xkind'] != 'f64' or (nd >= 1 and v['layout'] not in ('C',)) or v['pre32'] or v['again']
+    return v['xkind'] != 'f64' or (nd >= 1 and v['layout'] not in ('C',)) or v['pre32'] or v['again'] or v.get('edit', 'none') != 'none'
 
 
 def present(x, shape, v, layout=None, kind=None):
@@ -164,6 +184,98 @@ def as32(x):
     if isinstance(x, (complex, np.complexfloating)):
         return np.complex64(x)
     return np.float32(x)
+
+
+def session_of(v):
+    """'' or the kind of single-precision session in which the request that precedes the checked one is made"""
+    how = v.get('session', 'data')
+    return how if v['pre32'] and how != 'data' else ''
+
+
+@contextlib.contextmanager
+def single_session(ctx, v):
+    """blind-spot class 'a session that starts under the single-precision configuration (on cold memo tables)': the request that precedes the
+    checked one runs while prysm.conf.config.precision = 32 - after vlib.util.cold_start() for the 'cold' kinds -; the configuration is back at 64
+    for the checked request, which must then be as accurate as double precision allows (nothing that was tabulated or memoised in single
+    precision may serve it).  Nothing is asserted about the accuracy of the request made under the single-precision configuration."""
+    how = session_of(v)
+    if not how:
+        yield
+        return
+    if how.startswith('cold'):
+        U.cold_start()
+    ctx.label('history:single-precision-session', 'session:' + how)
+    with U.precision(32):
+        yield
+
+
+def single(v, x):
+    """a coordinate argument of the request that precedes the checked one: in single precision, or - 'conf32-same-args' - the very object"""
+    return x if session_of(v) == 'conf32-same-args' else as32(x)
+
+
+def session_close(ctx, v, got, want, rt, bucket, what, scale, factor=1e-2):
+    """after a single-precision session the double-precision answer is compared with the same oracle at `factor` times the ordinary tolerance
+    (unchanged code: measured per clause, see the call sites; a remnant of single precision is 1e-8 .. 1e-7 of the scale)"""
+    if not session_of(v) or v['xkind'] == 'f32':
+        return
+    srt = rt * factor
+    _debug_ratio(got, want, srt, srt * scale, bucket)
+    U.check_close(got, want, srt, bucket + ':after-single-precision-session',
+                  what + ' [double-precision request after a request made under config.precision = 32: %s]' % session_of(v), atol=srt * scale)
+
+
+def _debug_ratio(got, want, rtol, atol, bucket):        # TEMPORARY
+    import os
+    if os.environ.get('VERIF_DEBUG_RATIO'):
+        g, w = np.asarray(got), np.asarray(want)
+        if g.shape == w.shape and g.size:
+            tol = rtol * float(np.max(np.abs(w))) + atol
+            with open(os.environ['VERIF_DEBUG_RATIO'], 'a') as f:
+                f.write('%.3e %s\n' % (float(np.max(np.abs(g - w))) / max(tol, 1e-300), bucket))
+
+
+def editable(a):
+    return isinstance(a, np.ndarray) and a.flags.writeable and a.size > 0 and a.dtype.kind in 'fc'
+
+
+def now64(a):
+    """the values a coordinate argument holds now, as float64 (complex points have zero imaginary part)"""
+    a = np.asarray(a)
+    return np.array(a.real if a.dtype.kind == 'c' else a, dtype=float)
+
+
+def edit_check(ctx, v, bucket, coords, redo, verify):
+    """blind-spot class 'public coordinate arrays edited in place between two calls with the same objects': after the checked call the caller
+    rescales / shifts / clocks its coordinate arrays IN PLACE (t += clocking, r *= 1/radius, x -> mid + (x - mid)/2: every value stays inside the
+    domain) and asks again with the same array objects; the answer must be that of the values the arrays hold now (`verify(result, bucket)` builds
+    the oracle from the current values).  coords: (argument, lo, hi, periodic) per coordinate argument; arguments that are not writeable float /
+    complex arrays (Python and numpy scalars, integer arrays) are left alone; one object given for two coordinates is edited once."""
+    how = v.get('edit', 'none')
+    if how == 'none':
+        return False
+    done = []
+    for a, lo, hi, periodic in coords:
+        if not editable(a) or any(a is b for b in done):
+            continue
+        if periodic:
+            if how == 'clock':
+                a += 0.375
+            else:
+                a *= 0.5
+        elif how == 'clock' and lo <= 0.0 <= hi:
+            a *= 0.5
+        else:
+            mid = 0.5 * (lo + hi)
+            a -= mid
+            a *= 0.5
+            a += mid
+        done.append(a)
+    if not done:
+        return False
+    ctx.label('coordinates-edited-in-place:' + how)
+    verify(redo(), bucket + ':coordinates-edited-in-place')
+    return True
 
 
 def contain(values, how):
@@ -403,6 +515,42 @@ def with_big_shapes(strategy, order_key='n', limit=60):
                                          st.sampled_from(BIG_SHAPES))).map(fix)
 
 
+# Sizes that cross block sizes, TOGETHER with every memory layout: more than 2**16 evaluation points as thin 2-D / 3-D arrays (so that the Fortran-ordered,
+# transposed and strided presentations of `present` differ from the C one) and as a vector; prime axis lengths, size-1 axes.  Used by every sum / sag-and-slope
+# clause; the number of terms is cut to BIG_TERMS on them (the cost is terms * size).
+BIG_THIN = [[3, 22003], [257, 263], [22003, 3], [2, 1, 32771], [65537], [3, 22003], [257, 263]]
+BIG_TERMS = 6
+
+
+def with_big(strategy, key='shape', shapes=BIG_THIN, one_in=10):
+    """the drawn case, one time in `one_in` on a large array instead of its drawn shape (a sampled index compared with one value: measured frequency
+    ~ 1 / one_in; st.one_of over repeated st.none() collapses the repeats and gives one in two)"""
+    def fix(t):
+        case, pick, big, lay = t
+        if pick == one_in // 2:
+            case = dict(case)
+            case[key] = big
+            if isinstance(case.get('v'), dict):      # the large arrays come in every memory layout, mostly not the C one
+                case['v'] = dict(case['v'], layout=lay[0], layout2=lay[1])
+        return case
+    lays = st.sampled_from(['F', 'T-view', 'strided', 'F', 'T-view', 'C'])
+    return st.tuples(strategy, st.sampled_from(list(range(one_in))), st.sampled_from(shapes), st.tuples(lays, lays)).map(fix)
+
+
+def is_big(shape):
+    return size_of(shape) > 65536
+
+
+def cut_mask(mask, shape, terms=BIG_TERMS):
+    """the drawn 0/1 pattern of a coefficient vector, cut to `terms` orders on a large array"""
+    if not is_big(shape) or len(mask) <= terms:
+        return mask
+    m = list(mask[:terms])
+    if not any(m):
+        m[-1] = 1
+    return m
+
+
 def array_shapes(nd_max=5):
     """shapes of things that have .shape and .dtype (the sequence forms need them): numpy scalar, 0-D ... 3-D"""
     s = st.integers(1, nd_max)
@@ -584,7 +732,8 @@ def check_der_scalar(case, ctx):
            or fam == 'laguerre' or v['n_as'] != 'int' or (npar and v['p_as'] != 'python'))
     cls = 'n=0' if n == 0 else 'n>=1'
     if v['pre32']:
-        g32 = call(ctx, cls + ':float32', der, n, *p, as32(xarg))
+        with single_session(ctx, v):
+            g32 = call(ctx, cls + ':float32', der, n, *p, single(v, xarg))
         U.check_shape(g32, shape_tuple(shape), '%s_der:float32' % fam, '%s_der(%d, %s, float32 x)' % (fam, n, p))
     want_full = np.imag(ctx.call(val, n, *p, base + 1j * H)) / H
     narg, parg = order_as(n, v), params_as(p, v)       # what is handed over; n and p stay the plain numbers the reference is built from
@@ -594,14 +743,18 @@ def check_der_scalar(case, ctx):
     rt = rtol_of(v, n, RT)
     what = '%s_der(n=%d, params=%s, x: %s %s) vs complex-step derivative of %s' % (fam, n, p, v['xkind'], shape_label(shape), fam)
 
-    def verify(got, bucket):
+    def verify(got, bucket, want=want):
         U.check_shape(got, np.shape(want), bucket, '%s_der(%d, %s, x) for x of shape %s' % (fam, n, p, shape))
         U.check_close(got, want, rt, bucket, what, atol=rt * scale)
     bucket = '%s_der:%s' % (fam, cls)
     got = call(ctx, cls, der, narg, *parg, xarg)
     verify(got, bucket)
+    # unchanged code: <= 3e-12 of the largest derivative up to n = 500
+    session_close(ctx, v, got, want, rt, bucket, what, scale, factor=1e-1)
     n2 = n + 1 if n + 1 <= order_cap(fam) and not (v['xkind'] == 'int' and fam in HERMITES and n + 1 > 15) else n - 1
     reuse_check(ctx, v, bucket, got, (xarg,), lambda: ctx.call(der, n2, *p, xarg), lambda: ctx.call(der, narg, *parg, xarg), verify)
+    edit_check(ctx, v, bucket, [(xarg, lo, hi, False)], lambda: ctx.call(der, narg, *parg, xarg),
+               lambda g, b_: verify(g, b_, want=np.imag(ctx.call(val, n, *p, now64(xarg) + 1j * H)) / H))
 
 
 # ---- sequence forms -------------------------------------------------------------------------------
@@ -654,14 +807,15 @@ def check_der_seq(case, ctx):
     ccls = cls[1:] or ('has-n=0' if ns[0] == 0 else 'n>=1')
     nsarg = contain(ns, v['ns_as'])
     if v['pre32']:
-        g32 = call(ctx, ccls + ':float32', dseq, nsarg, *p, as32(xarg))
+        with single_session(ctx, v):
+            g32 = call(ctx, ccls + ':float32', dseq, nsarg, *p, single(v, xarg))
         U.check_shape(g32, (len(ns),) + shape_tuple(shape), name + ':float32', '%s(ns=%s, float32 x)' % (name, ns))
     wants = []
     for n in ns:
         want_full = np.imag(ctx.call(val, n, *p, base + 1j * H)) / H
         wants.append((shaped(want_full, shape), float(np.max(np.abs(want_full)))))
 
-    def verify(got, suffix):
+    def verify(got, suffix, wants=wants):
         U.check_shape(got, (len(ns),) + shape_tuple(shape), name + (suffix or cls), '%s(ns=%s, x.shape=%s)' % (name, ns, shape))
         for k, n in enumerate(ns):
             want, scale = wants[k]
@@ -678,6 +832,11 @@ def check_der_seq(case, ctx):
     ns2 = contain([n + 1 if n + 1 <= order_cap(fam) else n for n in ns][:-1] or [ns[0] + 1], v['ns_as'])     # other orders, another length
     reuse_check(ctx, v, name, got, (xarg, nsarg), lambda: ctx.call(dseq, ns2, *p, xarg), lambda: ctx.call(dseq, nsarg, *p, xarg),
                 lambda g, b: verify(g, b[len(name):]))
+
+    def verify_now(g, b):
+        xn = now64(xarg)
+        verify(g, b[len(name):], wants=[(np.imag(ctx.call(val, n, *p, xn + 1j * H)) / H, wants[k][1]) for k, n in enumerate(ns)])
+    edit_check(ctx, v, name, [(xarg, lo, hi, False)], lambda: ctx.call(dseq, nsarg, *parg, xarg), verify_now)
 
 
 # ---- Zernike ---------------------------------------------------------------------------------------
@@ -748,9 +907,10 @@ def check_zernike(case, ctx):
     var_labels(ctx, v, shape)
     ctx.nt(True)
     if v['pre32']:
-        for n, m in nms:
-            r32 = as32(rarg)
-            ctx.call(P.zernike_nm_der, n, m, r32, r32 if alias else as32(targ), norm=norm)
+        with single_session(ctx, v):
+            for n, m in nms:
+                r32 = single(v, rarg)
+                ctx.call(P.zernike_nm_der, n, m, r32, r32 if alias else single(v, targ), norm=norm)
     prefail(ctx, v, P.zernike_nm_der, nms[0][0], nms[0][1], None, None, norm=norm)
     for i, (n, m) in enumerate(nms):
         ctx.label('m=0' if m == 0 else 'm<0' if m < 0 else 'm>0', n_class(n), 'm=+-n' if abs(m) == n and n else 'm-inner')
@@ -759,10 +919,10 @@ def check_zernike(case, ctx):
         mc = 'm=0' if m == 0 else 'm!=0'
         rt = rtol_of(v, n, RT)
 
-        def verify(res, suffix, n=n, m=m, wr_full=wr_full, wt_full=wt_full, mc=mc, rt=rt):
+        def verify(res, suffix, n=n, m=m, wr_full=wr_full, wt_full=wt_full, mc=mc, rt=rt, now=None):
             ctx.require(isinstance(res, tuple) and len(res) == 2, 'zernike_nm_der:return', 'expected (dr, dt), got %r' % (type(res),))
             for got, wfull, which in ((res[0], wr_full, 'radial'), (res[1], wt_full, 'azimuthal')):
-                want = shaped(wfull, shape)
+                want = shaped(wfull, shape) if now is None else now[which]
                 bucket = 'zernike_nm_der:%s:%s%s%s' % (which, mc, asuf, suffix)
                 U.check_shape(got, np.shape(want), bucket, 'zernike_nm_der(%d,%d) %s' % (n, m, which))
                 U.check_close(got, want, rt, bucket, 'zernike_nm_der(n=%d, m=%d, norm=%s, r: %s %s) %s derivative vs complex step' % (
@@ -773,7 +933,18 @@ def check_zernike(case, ctx):
             n2, m2 = n + 2, m
             reuse_check(ctx, v, 'zernike_nm_der', res, (rarg, targ), lambda: ctx.call(P.zernike_nm_der, n2, m2, rarg, targ, norm=norm),
                         lambda: ctx.call(P.zernike_nm_der, n, m, rarg, targ, norm=norm), lambda g, b: verify(g, b[len('zernike_nm_der'):]))
-    if not (shape == 'pyfloat' or kind == 'int'):
+    seq_form = not (shape == 'pyfloat' or kind == 'int')
+    if not seq_form:
+        # (with the sequence form the arrays are edited after it, below)
+        n0, m0 = nms[-1]
+
+        def verify_now(g, b, verify=verify):
+            rn, tn = now64(rarg), now64(targ)
+            verify(g, b[len('zernike_nm_der'):], now={'radial': np.imag(ctx.call(P.zernike_nm, n0, m0, rn + 1j * H, tn + 0j, norm=norm)) / H,
+                                                      'azimuthal': np.imag(ctx.call(P.zernike_nm, n0, m0, rn + 0j, tn + 1j * H, norm=norm)) / H})
+        edit_check(ctx, v, 'zernike_nm_der', [(rarg, 0.0, 1.0, False), (targ, -math.pi, 2 * math.pi, not alias)],
+                   lambda: ctx.call(P.zernike_nm_der, n0, m0, rarg, targ, norm=norm), verify_now)
+    if seq_form:
         nmarg = [tuple(e) for e in nms] if v['ns_as'] == 'list' else tuple(tuple(e) for e in nms) if v['ns_as'] == 'tuple' else np.array(nms)
         ctx.label('nms-as:' + v['ns_as'])
         refs = []
@@ -781,19 +952,26 @@ def check_zernike(case, ctx):
             refs.append((np.imag(P.zernike_nm(n, m, rbase + 1j * H, tbase + 0j, norm=norm)) / H,
                          np.imag(P.zernike_nm(n, m, rbase + 0j, tbase + 1j * H, norm=norm)) / H))
 
-        def verify_seq(seq, suffix):
+        def verify_seq(seq, suffix, now=None):
             U.check_shape(seq, (len(nms), 2) + shape_tuple(shape), 'zernike_nm_der_seq' + suffix, 'zernike_nm_der_seq(%s)' % nms)
             for k, (n, m) in enumerate(nms):
                 rt = rtol_of(v, n, RT)
                 for i, which in ((0, 'radial'), (1, 'azimuthal')):
                     wfull = refs[k][i]
-                    U.check_close(seq[k][i], shaped(wfull, shape), rt, 'zernike_nm_der_seq:' + which + asuf + suffix,
+                    U.check_close(seq[k][i], shaped(wfull, shape) if now is None else now[k][i], rt, 'zernike_nm_der_seq:' + which + asuf + suffix,
                                   'zernike_nm_der_seq(%s)[%d] %s vs complex step' % (nms, k, which), atol=rt * max(float(np.max(np.abs(wfull))), 1e-6))      # floor: all base radii may be exactly 0
         seq = call(ctx, 'seq', P.zernike_nm_der_seq, nmarg, rarg, targ, norm=norm)
         verify_seq(seq, '')
         other = [tuple(e) for e in reversed(nms)] + [(2, 0)]
         reuse_check(ctx, v, 'zernike_nm_der_seq', seq, (rarg, targ), lambda: ctx.call(P.zernike_nm_der_seq, other, rarg, targ, norm=norm),
                     lambda: ctx.call(P.zernike_nm_der_seq, nmarg, rarg, targ, norm=norm), lambda g, b: verify_seq(g, b[len('zernike_nm_der_seq'):]))
+
+        def verify_seq_now(g, b):
+            rn, tn = now64(rarg), now64(targ)
+            verify_seq(g, b[len('zernike_nm_der_seq'):], now=[(np.imag(P.zernike_nm(n, m, rn + 1j * H, tn + 0j, norm=norm)) / H,
+                                                                np.imag(P.zernike_nm(n, m, rn + 0j, tn + 1j * H, norm=norm)) / H) for n, m in nms])
+        edit_check(ctx, v, 'zernike_nm_der_seq', [(rarg, 0.0, 1.0, False), (targ, -math.pi, 2 * math.pi, not alias)],
+                   lambda: ctx.call(P.zernike_nm_der_seq, nmarg, rarg, targ, norm=norm), verify_seq_now)
 
 
 # ---- Clenshaw derivative sums: Jacobi ----------------------------------------------------------------
@@ -823,8 +1001,8 @@ def settle_sum_kind(v, shape):
 
 def strat_clenshaw_jacobi(tier):
     L = {'quick': 12, 'thorough': 30}[tier]
-    return st.fixed_dictionaries({'mask': st.one_of(masks(L), masks(L), masks(L), long_masks(41, 200)), 'ab': ab_pairs9(), 'j': st.integers(1, 4),
-                                  'shape': point_shapes(), 'edge': st.booleans(), 'seed': U.seeds, 'v': variants()})
+    return with_big(st.fixed_dictionaries({'mask': st.one_of(masks(L), masks(L), masks(L), long_masks(41, 200)), 'ab': ab_pairs9(), 'j': st.integers(1, 4),
+                                           'shape': point_shapes(), 'edge': st.booleans(), 'seed': U.seeds, 'v': variants()}), one_in=12)
 
 
 def check_clenshaw_jacobi(case, ctx):
@@ -833,9 +1011,15 @@ def check_clenshaw_jacobi(case, ctx):
     value routine it names, jacobi_sum_clenshaw (complex step), and every row k of the returned array is the derivative of row k-1 of the
     same array ("alphas[0,0] the sum of the polynomials, alphas[1,0] the sum of the first derivative, and so on")."""
     from prysm.polynomials import jacobi_sum_clenshaw_der, jacobi_sum_clenshaw, jacobi, jacobi_der
-    mask, (a, b), j, shape = case['mask'], case['ab'], case['j'], case['shape']
+    (a, b), j, shape = case['ab'], case['j'], case['shape']
+    mask = cut_mask(case['mask'], shape)
+    big = is_big(shape)
+    if big:
+        j = min(j, 2)
     v = var_of(case)
     v = settle_sum_kind(v, shape)
+    if big:
+        ctx.label('size>2^16', 'size>2^16:layout:' + v['layout'], 'size>2^16:%d-D' % len(shape))
     s = coefs_of(mask, case['seed'], 3, v['cs_as'])
     sarg = contain(s, v['cs_as'])
     x, base = make_points(case['seed'], shape, -1.0, 1.0, case['edge'], kind=v['xkind'])
@@ -851,7 +1035,8 @@ def check_clenshaw_jacobi(case, ctx):
     ctx.nt(nt or j >= 2 or len(s) == 1 or not all(mask) or ab_class(a, b) != 'ab:tabulated' or v['cs_as'] != 'list')
     vcls = 'len1' if M == 0 else 'j=1' if j == 1 else 'j>=2,j>=len(s)' if j > M else 'j>=2'
     if v['pre32']:
-        call(ctx, vcls + ':float32', jacobi_sum_clenshaw_der, sarg, a, b, as32(xarg), j=j)
+        with single_session(ctx, v):
+            call(ctx, vcls + ':float32', jacobi_sum_clenshaw_der, sarg, a, b, single(v, xarg), j=j)
     jarg = order_as(j, v)
     aarg, barg = params_as([a, b], v)
     kw = {}
@@ -885,13 +1070,16 @@ def check_clenshaw_jacobi(case, ctx):
             U.check_shape(got, np.shape(want), bucket, 'alphas[%d][0] for x of shape %s' % (k, shape))
             U.check_close(got, want, rt, bucket, 'jacobi_sum_clenshaw_der(s=%s, a=%r, b=%r, x: %s %s, j=%d): derivative of order %d' % (
                 s if len(s) <= 12 else '<%d terms>' % len(s), a, b, v['xkind'], shape_label(shape), j, k), atol=rt * scale)
-    bucket = 'jacobi_sum_clenshaw_der:%s' % vcls
+    bucket = 'jacobi_sum_clenshaw_der:%s%s' % (vcls, ':size>2^16:%s' % ('C-ordered' if v['layout'] == 'C' or len(shape) == 1 else 'not-C-ordered') if big else '')
     if case['seed'] % 2:        # other entry point: x by keyword, as compute_z_zprime_Qcon passes it
         ctx.label('x-by-keyword')
         alphas = call(ctx, vcls, jacobi_sum_clenshaw_der, sarg, aarg, barg, x=xarg, j=jarg, **kw)
     else:
         alphas = call(ctx, vcls, jacobi_sum_clenshaw_der, sarg, aarg, barg, xarg, j=jarg, **kw)
     verify(alphas, bucket)
+    if not long_:       # unchanged code against scipy's explicit sum, up to 40 terms: <= 2e-12 of the term-wise scale
+        session_close(ctx, v, alphas[1][0], refs[1][0], rt, bucket, 'jacobi_sum_clenshaw_der(s=%s as %s, a=%r, b=%r, x: %s %s, j=%d): first derivative' % (
+            s, v['cs_as'], a, b, v['xkind'], shape_label(shape), j), max(refs[1][1], 1e-300))
     # ... and the derivative of the value routine it names: complex step through jacobi_sum_clenshaw itself, and through row k-1 of
     # the array the derivative routine returns (complex128 points of the base vector; same coefficients, same parameters)
     pcls = 'alpha=-beta!=0' if a == -b and a != 0 else 'alpha=beta' if a == b else 'general-parameters'
@@ -934,8 +1122,8 @@ def cauchy_taylor(f, x0, rho, kmax, K):
 
 def strat_clenshaw_q(tier):
     L = {'quick': 10, 'thorough': 20}[tier]
-    return st.fixed_dictionaries({'kind': st.sampled_from(['qbfs', 'q2d', 'q2d']), 'mask': masks(L), 'm': st.one_of(st.integers(1, 8), st.sampled_from([1, 2, 12, 16, 20])),
-                                  'j': st.integers(1, 4), 'shape': point_shapes(4), 'seed': U.seeds, 'v': variants(('f64', 'f32', 'complex'))})
+    return with_big(st.fixed_dictionaries({'kind': st.sampled_from(['qbfs', 'q2d', 'q2d']), 'mask': masks(L), 'm': st.one_of(st.integers(1, 8), st.sampled_from([1, 2, 12, 16, 20])),
+                                           'j': st.integers(1, 4), 'shape': point_shapes(4), 'seed': U.seeds, 'v': variants(('f64', 'f32', 'complex'))}), one_in=10)
 
 
 def check_clenshaw_q(case, ctx):
@@ -944,7 +1132,12 @@ def check_clenshaw_q(case, ctx):
     make up S), by complex step, and every row k of the returned array is the derivative of row k-1 of the same array."""
     from prysm.polynomials import Qbfs, Q2d
     from prysm.polynomials.qpoly import clenshaw_qbfs_der, clenshaw_q2d_der, clenshaw_qbfs, clenshaw_q2d
-    kind, mask, m, j, shape = case['kind'], case['mask'], case['m'], case['j'], case['shape']
+    kind, m, j, shape = case['kind'], case['m'], case['j'], case['shape']
+    mask = cut_mask(case['mask'], shape, 4)
+    big = is_big(shape)
+    if big:
+        j = min(j, 2)
+        ctx.label('size>2^16', 'size>2^16:layout:' + var_of(case)['layout'], 'size>2^16:%d-D' % len(shape))
     v = settle_sum_kind(var_of(case, ('f64', 'f32', 'complex')), shape)
     cs = coefs_of(mask, case['seed'], 4, v['cs_as'])
     carg = contain(cs, v['cs_as'])
@@ -985,8 +1178,9 @@ def check_clenshaw_q(case, ctx):
             return 0.5 * a_[0] - 2 / 5 * a_[3] if m == 1 and N > 2 else 0.5 * a_[0]
     run.__name__ = run.__qualname__ = 'clenshaw_%s_der' % kind
     if v['pre32']:
-        call(ctx, vcls + ':float32', run, carg, as32(xarg))
-    derivs, fmax = ctx.call(cauchy_taylor, S, base, 0.15, j, 64)
+        with single_session(ctx, v):
+            call(ctx, vcls + ':float32', run, carg, single(v, xarg))
+    derivs, fmax = ctx.call(cauchy_taylor, S, base, 0.15, j, 8 if big else 64)      # exact for degree < 8: at most 4 orders on a large array
     rt = rtol_of(v, N, 1e-7)
 
     def verify(alphas, bucket):
@@ -1004,7 +1198,8 @@ def check_clenshaw_q(case, ctx):
             noise = 1e-12 * fmax * math.factorial(k) / 0.15 ** k
             U.check_close(got, want, rt, bucket, 'clenshaw_%s_der(cs=%s%s, x: %s %s, j=%d): derivative of order %d w.r.t. u^2' % (
                 kind, cs, '' if kind == 'qbfs' else ', m=%d' % m, v['xkind'], shape_label(shape), j, k), atol=rt * float(np.max(np.abs(derivs[k]))) + noise)
-    bucket = 'clenshaw_%s_der:%s%s' % (kind, vcls, ':integer-coefficient-array' if v['cs_as'] == 'intarray' else '')
+    bucket = 'clenshaw_%s_der:%s%s%s' % (kind, vcls, ':integer-coefficient-array' if v['cs_as'] == 'intarray' else '',
+                                         ':size>2^16:%s' % ('C-ordered' if v['layout'] == 'C' or len(shape) == 1 else 'not-C-ordered') if big else '')
     kw = {}
     if use_buf != 'none':
         # caller-supplied workspace, fresh or already used by a call of the same shape (other coefficients, other points)
@@ -1014,6 +1209,13 @@ def check_clenshaw_q(case, ctx):
     prefail(ctx, v, run, carg, None)
     alphas = call(ctx, vcls + ('' if use_buf == 'none' else ':alphas-given'), run, carg, xarg, **kw)
     verify(alphas, bucket + ('' if use_buf == 'none' else ':alphas-' + use_buf))
+    if session_of(v) and v['xkind'] != 'f32':
+        # after a single-precision session: the first derivative against the complex step of the explicit sum of the value routines Qbfs / Q2d
+        # (exact to rounding, unlike the Cauchy integral above); unchanged code: <= 1e-12 of the scale
+        d1 = np.imag(S(base + 1j * H)) / H
+        session_close(ctx, v, comb(alphas[1]), shaped(d1, shape), 1e-8, bucket, 'clenshaw_%s_der(cs=%s as %s%s, x: %s %s, j=%d): first derivative w.r.t. u^2 vs '
+                      'complex step of sum c_n Q_n' % (kind, cs, v['cs_as'], '' if kind == 'qbfs' else ', m=%d' % m, v['xkind'], shape_label(shape), j),
+                      max(float(np.max(np.abs(derivs[1]))), float(np.max(np.abs(derivs[0])))))
     # ... the derivative of the value routine it names, and of its own lower rows (complex step at the complex128 base points)
     zb = base + 1j * H
     if kind == 'qbfs':
@@ -1045,22 +1247,26 @@ def check_clenshaw_q(case, ctx):
 
 def strat_zprime(tier):
     L = {'quick': 10, 'thorough': 24}[tier]
-    return st.fixed_dictionaries({'kind': st.sampled_from(['Qbfs', 'Qcon']), 'mask': st.one_of(masks(L), masks(L), masks(L), long_masks(25, 60)), 'shape': point_shapes(),
-                                  'edge': st.booleans(), 'seed': U.seeds, 'v': variants()})
+    return with_big(st.fixed_dictionaries({'kind': st.sampled_from(['Qbfs', 'Qcon']), 'mask': st.one_of(masks(L), masks(L), masks(L), long_masks(25, 60)), 'shape': point_shapes(),
+                                           'edge': st.booleans(), 'seed': U.seeds, 'v': variants()}))
 
 
 def check_zprime(case, ctx):
     """compute_z_zprime_Qbfs / _Qcon: the slope output is d/du of sum c_n Q_n(u) (complex step through Qbfs / Qcon)."""
     from prysm.polynomials import Qbfs, Qcon
     from prysm.polynomials.qpoly import compute_z_zprime_Qbfs, compute_z_zprime_Qcon
-    kind, mask, shape = case['kind'], case['mask'], case['shape']
+    kind, shape = case['kind'], case['shape']
+    mask = cut_mask(case['mask'], shape)
     v = settle_sum_kind(var_of(case), shape)
     cs = coefs_of(mask, case['seed'], 5, v['cs_as'])
     carg = contain(cs, v['cs_as'])
     u, base = make_points(case['seed'], shape, 0.0, 1.0, case['edge'], kind=v['xkind'])
     uarg = present(u, shape, v)
     usq = uarg * uarg
-    ctx.label(kind, mask_class(mask), shape_label(shape), 'edge' if case['edge'] else 'interior', 'cs-as:' + v['cs_as'], 'len>24' if len(cs) > 24 else 'len<=24')
+    ctx.label(kind, mask_class(mask), shape_label(shape), 'edge' if case['edge'] else 'interior', 'cs-as:' + v['cs_as'], 'len>24' if len(cs) > 24 else 'len<=24',
+              'size>2^16' if is_big(shape) else 'size<=2^16')
+    if is_big(shape):
+        ctx.label('size>2^16:layout:' + v['layout'], 'size>2^16:%d-D' % len(shape))
     coef_label(ctx, v)
     nt = var_labels(ctx, v, shape)
     ctx.nt(nt or len(cs) == 1 or not all(mask) or isinstance(shape, str) or len(shape) != 1 or v['cs_as'] != 'list')
@@ -1068,27 +1274,36 @@ def check_zprime(case, ctx):
     fn = compute_z_zprime_Qbfs if kind == 'Qbfs' else compute_z_zprime_Qcon
     lcls = 'len1' if len(cs) == 1 else 'len>=2'
     if v['pre32']:
-        u32 = as32(uarg)
-        call(ctx, lcls + ':float32', fn, carg, u32, u32 * u32)
-    full = np.zeros_like(base)
-    scale = 0.0
-    for n, c in enumerate(cs):
-        if c != 0:
-            term = c * np.imag(ctx.call(Q, n, base + 1j * H)) / H
-            full += term
-            scale += float(np.max(np.abs(term)))
+        with single_session(ctx, v):
+            u32 = single(v, uarg)
+            call(ctx, lcls + ':float32', fn, carg, u32, u32 * u32)
+
+    def slope_at(pts):
+        """complex-step derivative of the explicit sum at the float64 points pts (any shape), and its term-wise scale"""
+        full, scale = np.zeros(np.shape(pts)), 0.0
+        for n, c in enumerate(cs):
+            if c != 0:
+                term = c * np.imag(ctx.call(Q, n, pts + 1j * H)) / H
+                full += term
+                scale += float(np.max(np.abs(term)))
+        return full, scale
+    full, scale = slope_at(base)
     want = shaped(full, shape)
     rt = rtol_of(v, len(cs), 1e-8)
+    what = 'compute_z_zprime_%s(cs=%s as %s, u: %s %s %s): slope vs complex-step derivative of sum c_n %s(n,u)' % (
+        kind, cs if len(cs) <= 12 else '<%d terms>' % len(cs), v['cs_as'], v['xkind'], shape_label(shape), v['layout'], kind)
 
-    def verify(res, bucket):
+    def verify(res, bucket, want=want, scale=scale):
         ctx.require(isinstance(res, tuple) and len(res) == 2, 'compute_z_zprime_%s:return' % kind, 'expected (z, zprime)')
         U.check_shape(res[1], np.shape(want), bucket, 'slope for u of shape %s' % (shape,))
-        U.check_close(res[1], want, rt, bucket, 'compute_z_zprime_%s(cs=%s, u: %s %s): slope vs complex-step derivative of sum c_n %s(n,u)' % (
-            kind, cs if len(cs) <= 12 else '<%d terms>' % len(cs), v['xkind'], shape_label(shape), kind), atol=rt * scale)
-    bucket = 'compute_z_zprime_%s:slope:%s%s' % (kind, lcls, ':integer-coefficient-array' if v['cs_as'] == 'intarray' else '')
+        U.check_close(res[1], want, rt, bucket, what, atol=rt * scale)
+    bucket = 'compute_z_zprime_%s:slope:%s%s%s' % (kind, lcls, ':integer-coefficient-array' if v['cs_as'] == 'intarray' else '',
+                                                   ':size>2^16:%s' % ('C-ordered' if v['layout'] == 'C' or len(shape) == 1 else 'not-C-ordered') if is_big(shape) else '')
     prefail(ctx, v, fn, carg, None, None)
     res = call(ctx, lcls, fn, carg, uarg, usq)
     verify(res, bucket)
+    # unchanged code: <= 3e-13 of the scale in double precision (60 terms, end points included)
+    session_close(ctx, v, res[1], want, rt, bucket, what, scale)
     # the slope is the derivative of the sag the same call returns: complex step through the evaluator's own first output
     zb = base + 1j * H
     own = ctx.call(fn, carg, zb, zb * zb)
@@ -1098,6 +1313,15 @@ def check_zprime(case, ctx):
                       kind, cs if len(cs) <= 12 else '<%d terms>' % len(cs), v['xkind'], shape_label(shape)), atol=rt * scale)
     c2 = [0.5 - c for c in cs] + [1.0]
     reuse_check(ctx, v, bucket, res, (uarg, usq, carg), lambda: ctx.call(fn, c2, uarg, usq), lambda: ctx.call(fn, carg, uarg, usq), verify)
+
+    def redo():
+        np.multiply(uarg, uarg, out=usq)        # the caller keeps u^2 in step with u, in place too
+        return ctx.call(fn, carg, uarg, usq)
+
+    def verify_now(r_, b_):
+        w_, s_ = slope_at(now64(uarg))
+        verify(r_, b_, want=w_, scale=max(s_, scale))
+    edit_check(ctx, v, bucket, [(uarg, 0.0, 1.0, False)] if editable(usq) else [], redo, verify_now)
 
 
 # ---- 2D-Q sag / slope ----------------------------------------------------------------------------------
@@ -1116,13 +1340,29 @@ def q2d_coefs(tier):
 
 def q2d_expand(case, how='list'):
     seed = case['seed']
-    cm0 = coefs_of(case['coefs']['cm0'], seed, 10, how)
-    gap = case['coefs'].get('gap', 0) if case['coefs']['ab'] else 0
+    spec = q2d_spec(case)
+    cm0 = coefs_of(spec['cm0'], seed, 10, how)
+    gap = spec.get('gap', 0) if spec['ab'] else 0
     ams, bms = [[] for _ in range(gap)], [[] for _ in range(gap)]
-    for i, (ma, mb) in enumerate(case['coefs']['ab']):
+    for i, (ma, mb) in enumerate(spec['ab']):
         ams.append(coefs_of(ma, seed, 100 + i, how))
         bms.append(coefs_of(mb, seed, 200 + i, how))
     return cm0, ams, bms
+
+
+def q2d_spec(case):
+    """the drawn coefficient pattern; on more than 2**16 evaluation points: at most 3 radial orders per vector, the first two drawn azimuthal orders, a
+    gap of at most 2 empty orders (the oracle costs modes * points)"""
+    c = case['coefs']
+    if not is_big(case.get('shape', [])):
+        return c
+
+    def cut(m):
+        m = list(m[:3])
+        if m and not any(m):
+            m[-1] = 1
+        return m
+    return {'cm0': cut(c['cm0']), 'ab': [[cut(a), cut(b)] for a, b in c['ab'][:2]], 'gap': min(c.get('gap', 0), 2)}
 
 
 def q2d_contain(cm0, ams, bms, how):
@@ -1149,7 +1389,7 @@ def q2d_modes(cm0, ams, bms):
 
 
 def q2d_labels(ctx, case):
-    c = case['coefs']
+    c = q2d_spec(case)
     gap = c.get('gap', 0) if c['ab'] else 0
     ctx.label('cm0:' + ('empty' if not c['cm0'] else mask_class(c['cm0'])), 'max|m|=%s' % (len(c['ab']) + gap if len(c['ab']) + gap <= 9 else '>9'),
               'leading-empty-orders' if gap else 'no-leading-gap')
@@ -1164,8 +1404,8 @@ def q2d_labels(ctx, case):
 
 
 def strat_q2d(tier):
-    return st.fixed_dictionaries({'coefs': q2d_coefs(tier), 'shape': point_shapes(4), 'edge': st.booleans(), 'seed': U.seeds,
-                                  'v': variants(('f64', 'f32')), 'alias': st.sampled_from([False, False, False, False, True])})
+    return with_big(st.fixed_dictionaries({'coefs': q2d_coefs(tier), 'shape': point_shapes(4), 'edge': st.booleans(), 'seed': U.seeds,
+                                           'v': variants(('f64', 'f32')), 'alias': st.sampled_from([False, False, False, False, True])}), one_in=14)
 
 
 def q2d_explicit(ctx, modes, ubase, tbase):
@@ -1192,7 +1432,9 @@ def check_q2d(case, ctx):
     cargs = q2d_contain(cm0, ams, bms, v['cs_as'])
     cls = q2d_labels(ctx, case)
     coef_label(ctx, v)
-    ctx.label(shape_label(shape), 'cs-as:' + v['cs_as'])
+    ctx.label(shape_label(shape), 'cs-as:' + v['cs_as'], 'size>2^16' if is_big(shape) else 'size<=2^16')
+    if is_big(shape):
+        ctx.label('size>2^16:layout:' + v['layout'], 'size>2^16:%d-D' % len(shape))
     var_labels(ctx, v, shape)
     ctx.nt(True)
     u, ubase = make_points(case['seed'], shape, 0.0, 1.0, case['edge'], salt=1, kind=v['xkind'])
@@ -1206,23 +1448,29 @@ def check_q2d(case, ctx):
     ctx.label('u-is-t' if alias else 'u-and-t-separate')
     modes = q2d_modes(cm0, ams, bms)
     if v['pre32']:
-        u32 = as32(uarg)
-        call(ctx, cls + ':float32', compute_z_zprime_Q2d, *cargs, u32, u32 if alias else as32(targ))
+        with single_session(ctx, v):
+            u32 = single(v, uarg)
+            call(ctx, cls + ':float32', compute_z_zprime_Q2d, *cargs, u32, u32 if alias else single(v, targ))
     prefail(ctx, v, compute_z_zprime_Q2d, *cargs, None, None)
     dr, dt, sr, st_ = q2d_explicit(ctx, modes, ubase, tbase)
     rt = rtol_of(v, 12, 1e-8)
     isuf = ':integer-coefficient-array' if v['cs_as'] == 'intarray' else ''
+    if is_big(shape):
+        isuf += ':size>2^16:%s' % ('C-ordered' if v['layout'] == 'C' or len(shape) == 1 else 'not-C-ordered')
+    what = 'compute_z_zprime_Q2d(cm0=%s, ams=%s, bms=%s as %s, u: %s %s %s): %%s slope vs complex step of the mode sum' % (
+        cm0, ams, bms, v['cs_as'], v['xkind'], shape_label(shape), v['layout'])
 
-    def verify(res, suffix):
+    def verify(res, suffix, refs=None, session=False):
         ctx.require(isinstance(res, tuple) and len(res) == 3, 'compute_z_zprime_Q2d:return', 'expected (z, dr, dt)')
-        for got, wfull, sc, which in ((res[1], dr, sr, 'radial'), (res[2], dt, st_, 'azimuthal')):
-            want = shaped(wfull, shape)
+        dr_, dt_, sr_, st__ = refs or (shaped(dr, shape), shaped(dt, shape), sr, st_)
+        for got, want, sc, which in ((res[1], dr_, sr_, 'radial'), (res[2], dt_, st__, 'azimuthal')):
             bucket = 'compute_z_zprime_Q2d:%s:%s%s%s' % (which, cls, isuf, suffix)
             U.check_shape(got, np.shape(want), bucket, '%s slope for u of shape %s' % (which, shape))
-            U.check_close(got, want, rt, bucket, 'compute_z_zprime_Q2d(cm0=%s, ams=%s, bms=%s, u: %s %s): %s slope vs complex step of the mode sum' % (
-                cm0, ams, bms, v['xkind'], shape_label(shape), which), atol=rt * sc)
+            U.check_close(got, want, rt, bucket, what % which, atol=rt * sc)
+            if session:     # unchanged code: <= 2e-12 of the term-wise scale in double precision
+                session_close(ctx, v, got, want, rt, bucket, what % which, sc)
     res = call(ctx, cls, compute_z_zprime_Q2d, *cargs, uarg, targ)
-    verify(res, '')
+    verify(res, '', session=True)
     # both slopes are the derivatives of the sag the same call returns: complex step in u, then in t, through the evaluator's own first output
     for which, got, zu, zt, sc in (('radial', res[1], ubase + 1j * H, tbase + 0j, sr), ('azimuthal', res[2], ubase + 0j, tbase + 1j * H, st_)):
         own = ctx.call(compute_z_zprime_Q2d, *cargs, zu, zt)
@@ -1233,6 +1481,12 @@ def check_q2d(case, ctx):
     other = [[0.5] + [1.0 - c for c in cm0], [[0.25, -0.5, 1.0]] + [list(a) for a in ams], [[1.0]] + [list(b) for b in bms]]
     reuse_check(ctx, v, 'compute_z_zprime_Q2d', res, (uarg, targ, cargs), lambda: ctx.call(compute_z_zprime_Q2d, *other, uarg, targ),
                 lambda: ctx.call(compute_z_zprime_Q2d, *cargs, uarg, targ), lambda g, b: verify(g, b[len('compute_z_zprime_Q2d'):]))
+
+    def verify_now(r_, b_):
+        a_, b2_, sa_, sb_ = q2d_explicit(ctx, modes, now64(uarg), now64(targ))
+        verify(r_, b_[len('compute_z_zprime_Q2d'):], refs=(a_, b2_, max(sa_, sr), max(sb_, st_)))
+    edit_check(ctx, v, 'compute_z_zprime_Q2d', [(uarg, 0.0, 1.0, False), (targ, -math.pi, 2 * math.pi, not alias)],
+               lambda: ctx.call(compute_z_zprime_Q2d, *cargs, uarg, targ), verify_now)
 
 
 # ---- ray-tracing sag / slope helpers -------------------------------------------------------------------
@@ -1369,7 +1623,8 @@ def check_conics(case, ctx):
                                        'der_direction_cosine_spheroid vs d/drho (1/phi_spheroid)')
             wfull = np.imag(1 / ctx.call(S.phi_spheroid, c, k, rc * rc)) / H
         if v['pre32']:
-            call(ctx, 'float32', der, *args[:-1], as32(rarg))
+            with single_session(ctx, v):
+                call(ctx, 'float32', der, *args[:-1], single(v, rarg))
         got = call(ctx, kcls, der, *args, **kw)
         cmp(got, wfull, bucket, what)
         reuse_check(ctx, v, bucket, got, (rarg, kw), lambda: ctx.call(der, *((-0.5 * c,) + args[1:]), **kw), lambda: ctx.call(der, *args, **kw),
@@ -1386,7 +1641,8 @@ def check_conics(case, ctx):
             def val(r_, t_):
                 return 1 / ctx.call(S.off_axis_conic_sigma, c, k, r_, t_, dx, dy)
         if v['pre32']:
-            call(ctx, 'float32', der, c, k, as32(rarg), as32(targ), dx, dy)
+            with single_session(ctx, v):
+                call(ctx, 'float32', der, c, k, single(v, rarg), single(v, targ), dx, dy)
         wr = np.imag(val(rbase + 1j * H, tbase + 0j)) / H
         wt = np.imag(val(rbase + 0j, tbase + 1j * H)) / H
 
@@ -1439,7 +1695,8 @@ def check_conics(case, ctx):
             return sag
         sag = sag_of(c, sx, sy)
         if v['pre32']:
-            call(ctx, 'float32', surf.FFp, as32(x), as32(y))
+            with single_session(ctx, v):
+                call(ctx, 'float32', surf.FFp, single(v, x), single(v, y))
         if via:
             ctx.require(isinstance(surf.params, dict) and 'c' in surf.params, 'Surface.params', 'Surface.%s keeps its parameters in the params dict' % fn[4:])
             surf.params['c'] = c
@@ -1473,6 +1730,10 @@ def check_conics(case, ctx):
 
 
 def strat_q2d_surface(tier):
+    return with_big(_strat_q2d_surface(tier), shapes=[b for b in BIG_THIN if len(b) > 1], one_in=12)
+
+
+def _strat_q2d_surface(tier):
     return st.fixed_dictionaries({
         'coefs': q2d_coefs(tier),
         'c': conic_c(),
@@ -1518,6 +1779,9 @@ def check_q2d_surface(case, ctx):
     var_labels(ctx, v, shape)
     coef_label(ctx, v)
     ctx.nt(True)
+    ctx.label('size>2^16' if is_big(shape) else 'size<=2^16')
+    if is_big(shape):
+        ctx.label('size>2^16:layout:' + v['layout'], 'size>2^16:%d-D' % len(shape))
     _, rbase = make_points(case['seed'], shape, 0.05 * rmax, rmax, False, salt=1)
     _, tbase = make_points(case['seed'], shape, -0.98 * math.pi, 0.98 * math.pi, False, salt=2)   # arctan2 range
     xb, yb = rbase * np.cos(tbase), rbase * np.sin(tbase)
@@ -1559,8 +1823,9 @@ def check_q2d_surface(case, ctx):
             z = z + q / ctx.call(S.off_axis_conic_sigma, c, k, r_, t_, dx, dy)
         return z
     if v['pre32']:
-        x32 = as32(x)
-        call(ctx, cls + ':float32', S.Q2d_and_der, *cargs, x32, x32 if alias else as32(y), R, c, k, dx, dy)
+        with single_session(ctx, v):
+            x32 = single(v, x)
+            call(ctx, cls + ':float32', S.Q2d_and_der, *cargs, x32, x32 if alias else single(v, y), R, c, k, dx, dy)
     prefail(ctx, v, S.Q2d_and_der, *cargs, None, None, R, c, k, dx, dy)
     wr = np.imag(sag(rbase + 1j * H, tbase + 0j)) / H
     wt = np.imag(sag(rbase + 0j, tbase + 1j * H)) / H
@@ -1576,18 +1841,23 @@ def check_q2d_surface(case, ctx):
     st_ = max(st_, float(np.max(rbase)) * sr)
     rt = rtol_of(v, 12, 1e-8)
     isuf = ':integer-coefficient-array' if v['cs_as'] == 'intarray' else ''
+    if is_big(shape):
+        isuf += ':size>2^16:%s' % ('C-ordered' if v['layout'] == 'C' else 'not-C-ordered')
 
-    def verify(res, suffix):
+    def verify(res, suffix, session=False):
         ctx.require(isinstance(res, tuple) and len(res) == 3, 'Q2d_and_der:return', 'expected (z, dr, dt)')
         for got, wfull, sc, which in ((res[1], wr, sr, 'radial'), (res[2], wt, st_, 'azimuthal')):
             want = shaped(wfull, shape)
             bucket = 'Q2d_and_der:%s:%s%s%s%s%s' % (which, kcls, ':one-family-empty' if cls == 'one-family-empty' else '', isuf, asuf, suffix)
+            what = 'Q2d_and_der(cm0=%s, ams=%s, bms=%s as %s, R=%r, c=%r, k=%r, dx=%r, dy=%r, x: %s %s): %s slope vs complex step' % (
+                cm0, ams, bms, v['cs_as'], R, c, k, dx, dy, kind, shape_label(shape), which)
             U.check_shape(got, np.shape(want), bucket, which)
-            U.check_close(got, want, rt, bucket, 'Q2d_and_der(cm0=%s, ams=%s, bms=%s, R=%r, c=%r, k=%r, dx=%r, dy=%r, x: %s %s): %s slope vs complex step' % (
-                cm0, ams, bms, R, c, k, dx, dy, kind, shape_label(shape), which), atol=rt * sc)
+            U.check_close(got, want, rt, bucket, what, atol=rt * sc)
+            if session and kind == 'f64':       # unchanged code: see the measurement in the report of hardening pass 7 (<= 1e-11 of the term-wise scale)
+                session_close(ctx, v, got, want, rt, bucket, what, sc)
     sa, sk = skw()
     res = call(ctx, cls + asuf, S.Q2d_and_der, *cargs, x, y, R, c, k, *sa, **sk)
-    verify(res, '')
+    verify(res, '', session=True)
     other = [[0.5] + [1.0 - cc for cc in cm0], [[0.25, -0.5, 1.0]] + [list(a) for a in ams], [[1.0]] + [list(b) for b in bms]]
     reuse_check(ctx, v, 'Q2d_and_der', res, (x, y, cargs), lambda: ctx.call(S.Q2d_and_der, *other, x, y, R, -0.5 * c, k, dx, dy),
                 lambda: ctx.call(S.Q2d_and_der, *cargs, x, y, R, c, k, dx, dy), lambda g, b: verify(g, b[len('Q2d_and_der'):]))
